@@ -489,8 +489,10 @@ def check_c12():
                               f"[source lines {c['src']}, mix {mix}]", dict(src=c["src"], le=le, mix=mix, data=data, expected=exp["out"]))
             if data and ("\n" in data):
                 nontrivial.add((json.dumps(c["src"]), le))
+    le_files = line_ending_table(rep, wd, quick)
     rep.coverage.update(dict(
-        states=states, transitions=states, traces_validated_against_impl=len(cs),
+        states=states + le_files, transitions=states + le_files, traces_validated_against_impl=len(cs) + le_files,
+        first_line_detection_files=le_files,
         sources_enumerated=len(cases), generated_files_scanned=scanned, multi_line_outputs=len(nontrivial),
         rule="sources over the catalogue (first lines sampled by seed in the quick tier), each rendered with the first line LF / CRLF and the "
              "later lines terminated by the other ending and by a seeded mix, last line with/without terminator; included files, command output "
@@ -500,6 +502,24 @@ def check_c12():
     ))
     rep.assumptions = ["domain D1: CR occurs only immediately before LF"]
     rep.finish()
+
+
+def line_ending_table(rep, wd, quick):
+    """LineEnding.tla: TLC checks the code-shaped first-line rule against the README's on every file over {a, CR, LF} up to the
+    bound and prints the table; GetLineEnding of the real code is called on a file with exactly those bytes"""
+    from pure_engine import vh_pure
+    cfg = os.path.join(wd, "le.cfg")
+    open(cfg, "w").write(f"SPECIFICATION Spec\nCONSTANTS\n  MaxLen = {6 if quick else 8}\n  EmitTable = TRUE\nINVARIANTS Equiv Emit\nCHECK_DEADLOCK FALSE\n")
+    r = run_tlc("LineEnding.tla", cfg, "le", workers=1, timeout=1800)
+    if not r["ok"]:
+        rep.violation("spec:LineEnding", "TLC: the code-shaped first-line rule differs from the documented one (LineEnding.tla)", dict(out=r["out"][-3000:]))
+    rows = parse_emitted(r["out"], "LE")
+    got = vh_pure([dict(op="le", bytes=x["file"]) for x in rows], wd, "le")
+    for x, g in zip(rows, got):
+        if g.get("le") != x["le"]:
+            rep.violation(f"le:first:{x['file']!r}", f"line ending derived from a source with bytes {x['file']!r}: {g.get('le')!r} (panic={g.get('panic')}), LineEnding.tla says {x['le']!r}",
+                          dict(file=x["file"], expected=x["le"], observed=g))
+    return len(rows)
 
 
 # ------------------------------------------------------------------------------------------ C13
